@@ -97,7 +97,27 @@ func c17Values(r *rng.R, kind, n int) []any {
 			}
 		}
 	}
-	switch r.Intn(6) {
+	switch r.Intn(7) {
+	case 6: // sorted runs of one length laid end to end: every aligned block ascends, the descents sit on the block borders
+		var fits []int
+		for _, b := range []int{2, 3, 4, 8, 16, 32, 64, 100, 128, 256, 512, 1000, 1024, 2048, 4096} {
+			if 2*b <= len(vals) {
+				fits = append(fits, b)
+			}
+		}
+		if len(fits) > 0 {
+			b := fits[r.Intn(len(fits))]
+			if r.Bool() {
+				b = fits[len(fits)-1]
+			}
+			for lo := 0; lo < len(vals); lo += b {
+				hi := lo + b
+				if hi > len(vals) {
+					hi = len(vals)
+				}
+				sortAny(vals[lo:hi], kind)
+			}
+		}
 	case 0: // already sorted
 		sortAny(vals, kind)
 	case 1: // reverse sorted
@@ -270,7 +290,7 @@ func showVals17(v []any) string {
 func runC17(c *fw.Ctx) {
 	c.Cases("sort", c.N(3000, 2000000), false, func(i int, r *rng.R) {
 		kind := r.Intn(3)
-		n := []int{1, 2, 3, 4, 5, 8, 13, 21, 40, r.Range(1, 40), r.Range(1, 40), 65, r.Range(41, 300), r.Range(1, 40), []int{513, 1025, 5000}[r.Intn(3)]}[r.Intn(15)]
+		n := []int{1, 2, 3, 4, 5, 8, 13, 21, 40, r.Range(1, 40), r.Range(1, 40), 65, r.Range(41, 300), r.Range(1, 40), []int{513, 1025, 5000, 4096, 6144, 8192, 10240, 12289}[r.Intn(8)]}[r.Intn(15)]
 		vals := c17Values(r, kind, n)
 		c17Sort(c, r, vals, kind)
 	})
